@@ -20,6 +20,10 @@ Definition tr {A} (P : A -> Prop) (r : res A) : Prop :=
 Lemma tr_neq {A} (P : A -> Prop) (r : res A) : tr P r -> r <> OutOfFuel.
 Proof. destruct r; cbn [tr]; intros H; try discriminate. contradiction. Qed.
 
+Lemma bind_neq_oof {A B} (r : res A) (f : A -> res B) :
+  r <> OutOfFuel -> (forall a, f a <> OutOfFuel) -> bind r f <> OutOfFuel.
+Proof. destruct r; cbn [bind]; intros H Hf; try discriminate; [apply Hf | contradiction H; reflexivity]. Qed.
+
 Lemma tr_bind {A B} (P : A -> Prop) (Q : B -> Prop) (r : res A) (f : A -> res B) :
   tr P r -> (forall a, P a -> tr Q (f a)) -> tr Q (bind r f).
 Proof. destruct r; cbn [tr bind]; intros H Hf; try exact H. apply Hf, H. Qed.
@@ -477,4 +481,221 @@ Section Term.
       eapply tr_bind; [apply (IHty N d0); [exact Hd0 | lia]|]. intros r [Hr _].
       cbn [tr]. unfold noinc. cbn [fst snd]. exact Hr.
   Qed.
+
+  (** ---- the depth does not depend on the budget once it is defined *)
+  Lemma ty_depth_mono N : forall t d, dep N t = Some d -> dep (Datatypes.S N) t = Some d.
+  Proof.
+    induction N as [|N IH]; intros t d Hd; [discriminate|].
+    rewrite ty_depth_eq in Hd. rewrite (ty_depth_eq (Datatypes.S N)). destruct t as [k|t'|t'|n|n]; try exact Hd.
+    - destruct (dep N t') as [d'|] eqn:E; [|discriminate]. rewrite (IH _ _ E). exact Hd.
+    - destruct (dep N t') as [d'|] eqn:E; [|discriminate]. rewrite (IH _ _ E). exact Hd.
+    - destruct (String.eqb n "ttlv.Value"); [exact Hd|].
+      destruct (String.eqb n "ttlv.Struct"); [exact Hd|].
+      destruct (find_tdef S n) as [dd|]; [|exact Hd].
+      destruct (callees S OPS ATTRS OBJS dd) as [l|]; [|discriminate].
+      destruct (dmax (dep N) l) as [m|] eqn:Em; [|discriminate].
+      rewrite (dmax_ext _ _ l IH _ Em). exact Hd.
+  Qed.
+
+  Lemma ty_depth_mono_le N N' t d : (N <= N')%nat -> dep N t = Some d -> dep N' t = Some d.
+  Proof. intros Hle Hd. induction Hle as [|N' _ IH]; [exact Hd | apply ty_depth_mono, IH]. Qed.
+
+  (** under the acyclicity check, [bound] is the depth of every decodable type *)
+  Lemma bound_depth : acyclic_schema S OPS ATTRS OBJS = true ->
+    forall t, decodable S t = true -> exists N, dep N t = Some (bound S OPS ATTRS OBJS t).
+  Proof.
+    intros Hac. induction t as [k|t' IH|t' IH|n|n]; intros Hdec.
+    - exists 1%nat. reflexivity.
+    - cbn [decodable] in Hdec. destruct (IH Hdec) as [N HN]. exists (Datatypes.S N).
+      rewrite ty_depth_eq, HN. reflexivity.
+    - cbn [decodable] in Hdec. destruct (IH Hdec) as [N HN]. exists (Datatypes.S N).
+      rewrite ty_depth_eq, HN. reflexivity.
+    - cbn [bound]. destruct (dep (depth_budget S) (TNamed n)) as [d|] eqn:E; [exists (depth_budget S); exact E|].
+      exfalso. cbn [decodable] in Hdec.
+      assert (Hk : exists k, depth_budget S = Datatypes.S k).
+      { unfold depth_budget. exists (4 * List.length S + 3)%nat. lia. }
+      destruct Hk as [k Hk].
+      destruct (String.eqb n "ttlv.Value") eqn:E1.
+      { rewrite Hk, ty_depth_eq, E1 in E. discriminate. }
+      destruct (String.eqb n "ttlv.Struct") eqn:E2.
+      { rewrite Hk, ty_depth_eq, E1, E2 in E. discriminate. }
+      cbn [orb] in Hdec. apply andb_true_iff in Hdec. destruct Hdec as [Hh Hf].
+      destruct (find_tdef S n) as [dd|] eqn:Efind; [|discriminate].
+      destruct (find_tdef_some _ _ _ Efind) as [Hin Hn].
+      unfold acyclic_schema in Hac. rewrite forallb_forall in Hac. specialize (Hac dd Hin).
+      rewrite Hn in Hac. apply negb_true_iff in Hh. rewrite Hh, E in Hac. discriminate.
+    - discriminate.
+  Qed.
 End Term.
+
+(** ---- the statements *)
+
+(** general form: ANY schema and tables, any total reader format, any type whose static depth
+    is defined (with whatever budget), any cursor: fuel above depth + 2 * (raw elements under
+    the cursor) is never exhausted *)
+Theorem dec_ty_terminates_depth : forall S OPS ATTRS OBJS {R} (F : rawfmt R), fmt_total F ->
+  forall N d fuel st t tag c, ty_depth S OPS ATTRS OBJS N t = Some d ->
+    (d + K_ELEM * csize c <= fuel)%nat ->
+    dec_ty S OPS ATTRS OBJS F fuel st t tag c <> OutOfFuel.
+Proof.
+  intros S OPS ATTRS OBJS R F HF N d fuel st t tag c Hd Hfuel. eapply tr_neq.
+  exact (proj1 (dec_all_tr S OPS ATTRS OBJS F HF fuel) N d st t tag c Hd Hfuel).
+Qed.
+
+(** ... and what it leaves is no larger, strictly smaller when the cursor stood on the tag *)
+Theorem dec_ty_consumes : forall S OPS ATTRS OBJS {R} (F : rawfmt R), fmt_total F ->
+  forall N d fuel st t tag c v c' st', ty_depth S OPS ATTRS OBJS N t = Some d ->
+    (d + K_ELEM * csize c <= fuel)%nat ->
+    dec_ty S OPS ATTRS OBJS F fuel st t tag c = Ok (v, c', st') ->
+    (csize c' <= csize c)%nat /\ (c_tag c = tag -> (csize c' < csize c)%nat).
+Proof.
+  intros S OPS ATTRS OBJS R F HF N d fuel st t tag c v c' st' Hd Hfuel E.
+  pose proof (proj1 (dec_all_tr S OPS ATTRS OBJS F HF fuel) N d st t tag c Hd Hfuel) as H.
+  rewrite E in H. exact H.
+Qed.
+
+(** the slice loop `for d.Tag() == tag { decode one element }` *)
+Theorem dec_slice_terminates_depth : forall S OPS ATTRS OBJS {R} (F : rawfmt R), fmt_total F ->
+  forall N d fuel st t tag c, ty_depth S OPS ATTRS OBJS N t = Some d ->
+    (d + 1 + K_ELEM * csize c <= fuel)%nat ->
+    dec_slice S OPS ATTRS OBJS F fuel st t tag c <> OutOfFuel.
+Proof.
+  intros S OPS ATTRS OBJS R F HF N d fuel st t tag c Hd Hfuel. eapply tr_neq.
+  exact (proj1 (proj2 (dec_all_tr S OPS ATTRS OBJS F HF fuel)) N d st t tag c Hd Hfuel).
+Qed.
+
+(** a struct body: [m] bounds the depth of every field type *)
+Theorem dec_fields_s_terminates_depth : forall S OPS ATTRS OBJS {R} (F : rawfmt R), fmt_total F ->
+  forall N m fuel st fl c, dmax (ty_depth S OPS ATTRS OBJS N) (map f_ty fl) = Some m ->
+    (m + List.length fl + 1 + K_ELEM * csize c <= fuel)%nat ->
+    dec_fields_s S OPS ATTRS OBJS F fuel st fl c <> OutOfFuel.
+Proof.
+  intros S OPS ATTRS OBJS R F HF N m fuel st fl c Hm Hfuel. eapply tr_neq.
+  apply (proj1 (proj2 (proj2 (dec_all_tr S OPS ATTRS OBJS F HF fuel))) N m st fl c); [|exact Hfuel].
+  intros fd Hfd. apply (dmax_in _ _ _ Hm). apply in_map. exact Hfd.
+Qed.
+
+Theorem dec_opt_terminates_depth : forall S OPS ATTRS OBJS {R} (F : rawfmt R), fmt_total F ->
+  forall N d fuel st t tag c, ty_depth S OPS ATTRS OBJS N t = Some d ->
+    (d + 1 + K_ELEM * csize c <= fuel)%nat ->
+    dec_opt S OPS ATTRS OBJS F fuel st t tag c <> OutOfFuel.
+Proof.
+  intros S OPS ATTRS OBJS R F HF N d fuel st t tag c Hd Hfuel. eapply tr_neq.
+  exact (proj1 (proj2 (proj2 (proj2 (dec_all_tr S OPS ATTRS OBJS F HF fuel)))) N d st t tag c Hd Hfuel).
+Qed.
+
+(** NewObjectForType + d.Any: [m] bounds the depth of every object type *)
+Theorem dec_object_terminates_depth : forall S OPS ATTRS OBJS {R} (F : rawfmt R), fmt_total F ->
+  forall N m fuel st ot c, dmax (ty_depth S OPS ATTRS OBJS N) (obj_types OBJS) = Some m ->
+    (m + 1 + K_ELEM * csize c <= fuel)%nat ->
+    dec_object S OPS ATTRS OBJS F fuel st ot c <> OutOfFuel.
+Proof.
+  intros S OPS ATTRS OBJS R F HF N m fuel st ot c Hm Hfuel. eapply tr_neq.
+  apply (proj2 (proj2 (proj2 (proj2 (dec_all_tr S OPS ATTRS OBJS F HF fuel)))) N m st ot c); [|exact Hfuel].
+  exact (dmax_in _ _ _ Hm).
+Qed.
+
+(** the form asked for: a decidable acyclicity check on the schema, and [bound] as the static
+    part.  (The safety check dec_safe_schema is NOT needed for this half: the panic points
+    of the model are results.) *)
+Theorem dec_ty_terminates : forall S OPS ATTRS OBJS {R} (F : rawfmt R), fmt_total F ->
+  acyclic_schema S OPS ATTRS OBJS = true ->
+  forall fuel st t tag c, decodable S t = true ->
+    (bound S OPS ATTRS OBJS t + K_ELEM * csize c <= fuel)%nat ->
+    dec_ty S OPS ATTRS OBJS F fuel st t tag c <> OutOfFuel.
+Proof.
+  intros S OPS ATTRS OBJS R F HF Hac fuel st t tag c Hdec Hfuel.
+  destruct (bound_depth S OPS ATTRS OBJS Hac t Hdec) as [N HN].
+  exact (dec_ty_terminates_depth S OPS ATTRS OBJS F HF N _ fuel st t tag c HN Hfuel).
+Qed.
+
+(** with the safety check: the typed decoder RETURNS (a value or an error) *)
+Theorem dec_ty_returns : forall S OPS ATTRS OBJS {R} (F : rawfmt R), fmt_total F ->
+  dec_safe_schema S OPS ATTRS OBJS = true -> acyclic_schema S OPS ATTRS OBJS = true ->
+  forall fuel st t tag c, decodable S t = true ->
+    (bound S OPS ATTRS OBJS t + K_ELEM * csize c <= fuel)%nat ->
+    (exists r, dec_ty S OPS ATTRS OBJS F fuel st t tag c = Ok r) \/
+    dec_ty S OPS ATTRS OBJS F fuel st t tag c = Err.
+Proof.
+  intros S OPS ATTRS OBJS R F HF HS Hac fuel st t tag c Hdec Hfuel.
+  pose proof (dec_ty_terminates S OPS ATTRS OBJS F HF Hac fuel st t tag c Hdec Hfuel) as H1.
+  pose proof (dec_ty_never_panics S OPS ATTRS OBJS F HF HS fuel st t tag c Hdec) as H2.
+  destruct (dec_ty S OPS ATTRS OBJS F fuel st t tag c) as [r| | |].
+  - left. exists r. reflexivity.
+  - right. reflexivity.
+  - contradiction H2; reflexivity.
+  - contradiction H1; reflexivity.
+Qed.
+
+(** ---- the real schema *)
+Lemma kmip_schema_acyclic : acyclic_schema kmip_schema kmip_ops kmip_attrs kmip_objs = true.
+Proof. vm_compute. reflexivity. Qed.
+
+Lemma kmip_cyclic_names : cyclic_names kmip_schema kmip_ops kmip_attrs kmip_objs = [].
+Proof. vm_compute. reflexivity. Qed.
+
+(** the static depth of a KMIP message *)
+Definition B_kmip : nat := 57%nat.
+
+Lemma kmip_roots_bound :
+  bound kmip_schema kmip_ops kmip_attrs kmip_objs (TNamed "kmip.RequestMessage") = B_kmip /\
+  bound kmip_schema kmip_ops kmip_attrs kmip_objs (TNamed "kmip.ResponseMessage") = B_kmip.
+Proof. vm_compute. split; reflexivity. Qed.
+
+(** ttlv.Unmarshal{TTLV,XML,JSON}(…, &msg) over any total reader format *)
+Theorem kmip_dec_terminates : forall {R} (F : rawfmt R), fmt_total F ->
+  forall root c, (root = "kmip.RequestMessage" \/ root = "kmip.ResponseMessage")%string ->
+  (B_kmip + K_ELEM * csize c <= FUEL)%nat ->
+  kmip_dec F root c <> OutOfFuel.
+Proof.
+  intros R F HF root c Hroot Hfuel. unfold kmip_dec.
+  destruct kmip_roots_decodable as [Hq Hs]. destruct kmip_roots_bound as [Bq Bs].
+  assert (H : forall tag, dec_ty kmip_schema kmip_ops kmip_attrs kmip_objs F FUEL None (TNamed root) tag c <> OutOfFuel).
+  { intros tag. apply dec_ty_terminates; [exact HF | exact kmip_schema_acyclic | |].
+    - destruct Hroot as [-> | ->]; assumption.
+    - destruct Hroot as [-> | ->]; [rewrite Bq | rewrite Bs]; exact Hfuel. }
+  destruct (find_tdef kmip_schema root) as [d|]; [|discriminate].
+  apply bind_neq_oof; [apply H | intros; discriminate].
+Qed.
+
+(** the binary reader: every raw element stands for at least 8 bytes *)
+Lemma bin_cursor_size bs c : bytes_ok bs = true -> bin_cursor bs = Ok c -> (csize c <= List.length bs / 8)%nat.
+Proof.
+  intros Hb E. unfold bin_cursor in E.
+  pose proof (bin_forest_size (Datatypes.S (List.length bs)) bs Hb) as Hsz.
+  pose proof (c_open_safe (fst (bin_forest (Datatypes.S (List.length bs)) bs)) (snd (bin_forest (Datatypes.S (List.length bs)) bs))) as Ho.
+  rewrite E in Ho. cbn [safe_res] in Ho. rewrite Ho.
+  apply Nat.div_le_lower_bound; [discriminate | exact Hsz].
+Qed.
+
+Theorem kmip_unmarshal_terminates : forall root bs,
+  (root = "kmip.RequestMessage" \/ root = "kmip.ResponseMessage")%string ->
+  bytes_ok bs = true ->
+  (B_kmip + K_ELEM * (List.length bs / 8) <= FUEL)%nat ->
+  kmip_unmarshal root bs <> OutOfFuel.
+Proof.
+  intros root bs Hroot Hb Hfuel. unfold kmip_unmarshal.
+  destruct (bin_cursor bs) as [c| | |] eqn:E; cbn [bind]; try discriminate.
+  - apply kmip_dec_terminates; [exact bin_fmt_total | exact Hroot|].
+    pose proof (bin_cursor_size bs c Hb E) as Hc. unfold K_ELEM in *. lia.
+  - unfold bin_cursor in E.
+    pose proof (c_open_safe (fst (bin_forest (Datatypes.S (List.length bs)) bs)) (snd (bin_forest (Datatypes.S (List.length bs)) bs))) as Ho.
+    rewrite E in Ho. destruct Ho.
+Qed.
+
+(** with kmip_unmarshal_never_panics: a value or an error *)
+Theorem kmip_unmarshal_returns : forall root bs,
+  (root = "kmip.RequestMessage" \/ root = "kmip.ResponseMessage")%string ->
+  bytes_ok bs = true ->
+  (B_kmip + K_ELEM * (List.length bs / 8) <= FUEL)%nat ->
+  (exists v, kmip_unmarshal root bs = Ok v) \/ kmip_unmarshal root bs = Err.
+Proof.
+  intros root bs Hroot Hb Hfuel.
+  pose proof (kmip_unmarshal_terminates root bs Hroot Hb Hfuel) as H1.
+  pose proof (kmip_unmarshal_never_panics root bs Hroot Hb) as H2.
+  destruct (kmip_unmarshal root bs) as [v| | |].
+  - left. exists v. reflexivity.
+  - right. reflexivity.
+  - contradiction H2; reflexivity.
+  - contradiction H1; reflexivity.
+Qed.
